@@ -32,6 +32,7 @@ def make_case(seed, shard, i):
     r = random.Random(f"{seed}:C07:{shard}:{i}")
     g = lang.Gen(r, FEATURES)
     prog = g.program()
+    prog["comment"] = lang.random_mode_comment(r, 0.45)
     rows = lang.data_rows(r)
     return lang.tolist(prog), rows
 
@@ -40,6 +41,7 @@ def final_state(real):
     from vfy import diffrun
 
     c = real["csvpath"]
+    lm = c._line_monitor
     return {
         "vars": diffrun.norm_vars({k: v for k, v in c.variables.items() if not str(k).startswith("_intx_")}),
         "scan": c.scan_count,
@@ -49,6 +51,7 @@ def final_state(real):
         "errors": real["errors"],
         "printed": real["printed"],
         "exc": real["exc"],
+        "line_monitor": (lm.physical_line_number, lm.physical_line_count, lm.data_line_count, lm.data_line_number) if lm is not None else None,
     }
 
 
